@@ -11,7 +11,7 @@ PID = "C02"
 
 def enumerate_cases(tier, rng):
     shapes = txnlab.base_shapes()
-    modes = ["2pc", "async", "1pc"]
+    modes = ["2pc", "async", "1pc", "async1pc"]
     base = []
     for sh in shapes:
         for mode in modes:
@@ -31,7 +31,7 @@ def unistore_ok(sh, mode, pess):
     reports a committed lock-only secondary as missing; async-commit shapes with lock-only mutations are therefore left to
     the 2PC/1PC modes (environment limitation, see docs/TXN.md)"""
     muts = txnlab.expected_mutations({'ops': sh['ops'], 'pessimistic': pess})
-    return not (mode == 'async' and 'lock' in muts.values())
+    return not (mode in ('async', 'async1pc') and 'lock' in muts.values())
 
 
 def main(tier, replay):
@@ -56,10 +56,12 @@ def main(tier, replay):
         return v.finish()
     base = enumerate_cases(tier, rng)
     # pass 1: fault-free runs to learn the number of RPCs of each shape
-    probes = [txnlab.mk_scenario(f"p{i}", sh, mode, pess) for i, (sh, mode, pess) in enumerate(base)]
+    base = txnlab.with_fallbacks(base)
+    cov["fallback_shapes"] = sum(1 for b in base if b[-1])
+    probes = [txnlab.mk_scenario(f"p{i}", sh, mode, pess, **txnlab.fbkw(fb)) for i, (sh, mode, pess, fb) in enumerate(base)]
     pres = txnlab.run_scenarios(exe, probes)
     cases = []
-    for (sh, mode, pess), pr in zip(base, pres):
+    for (sh, mode, pess, fb), pr in zip(base, pres):
         n = min(pr.get("counted", 0), 14)
         for i in range(n):
             for kind in ("crash_undelivered", "crash_delivered"):
@@ -67,8 +69,8 @@ def main(tier, replay):
                 x = rng.random()
                 if x < 0.12:
                     extras = [{"at": i, "what": rng.choice(["reader", "writer", "gc", "split"]), "k": ""}]
-                cases.append(txnlab.mk_scenario(f"{sh['name']}-{mode}-{'p' if pess else 'o'}-{i}-{kind[6:7]}{'x' if extras else ''}", sh, mode, pess,
-                                                faults=[{"at": i, "kind": kind}], extras=extras))
+                cases.append(txnlab.mk_scenario(f"{sh['name']}-{mode}-{'p' if pess else 'o'}-{i}-{kind[6:7]}{'x' if extras else ''}{'-fb' if fb else ''}", sh, mode, pess,
+                                                faults=[{"at": i, "kind": kind}], extras=extras, **txnlab.fbkw(fb)))
     if tier == "quick" and len(cases) > 1800:
         rng.shuffle(cases)
         cases = cases[:1800]
